@@ -256,7 +256,12 @@ def body(case, ctx: Ctx):
         # never earlier, exactly once, at sbar
         early = [b for b in held_bars if b >= sbar]
         ctx.check(not early, "late.still_held", lambda: f"{nme} (expiry {E}) still held after bar {early[:2]}; should be removed at {sbar}", case)
-        before_ok = all(nme in l[3] for l in log if first_open <= l[0] < sbar)
+        # (a position may be sold out completely and bought again before its expiry: held = what the records add up to)
+        def held_after(bar):
+            tr = [(type(x).__name__, x.amount) for x in a.actions if getattr(x, "instrument_name", None) == nme and pd.Timestamp(x.timestamp) <= bar and type(x).__name__ in ("BuyAction", "SellAction")]
+            return sum((amt if k == "BuyAction" else -amt for k, amt in tr), Decimal(0))
+
+        before_ok = all((nme in l[3]) == (held_after(l[0]) > 0) for l in log if first_open <= l[0] < sbar)
         ctx.check(before_ok, "early.removed", lambda: f"{nme} (expiry {E}) removed before its settlement bar {sbar}", case)
         ctx.check(len(expires) == 1 and pd.Timestamp(expires[0].timestamp) == sbar, "expired.record", lambda: f"{nme}: ExpiredAction records at {[str(x.timestamp) for x in expires]}, expected exactly one at {sbar}", case)
         ctx.check(all(pd.Timestamp(x.timestamp) == sbar for x in delivers) and len(delivers) <= 1, "deliver.record", lambda: f"{nme}: DeliverAction records at {[str(x.timestamp) for x in delivers]}, expected at most one at {sbar}", case)
